@@ -22,7 +22,7 @@ fn tree_digest(dir: &std::path::Path) -> BTreeMap<String, String> {
 }
 
 /// run one generated history on an account; returns the multiset view (folder name -> sorted contents)
-async fn history(a: &mut LocalAccount, seed: u64) -> anyhow::Result<()> {
+pub async fn history(a: &mut LocalAccount, seed: u64) -> anyhow::Result<()> {
     let mut rng = Rng::new(seed ^ 0x19);
     let default = *a.default_folder().await.unwrap().id();
     let mut ids = vec![];
